@@ -19,7 +19,7 @@ for _q, _blk in (('sfc_models.sector.Sector.GetVariables', 'self.EquationBlock.E
 ADDVARIABLE = fn(
     'sfc_models.sector.Sector.AddVariable',
     args=dict(self=Ref('Sector'), varname=STR, desc=Opt(STR), eqn=STR),
-    modifies=['len', 'el.*', 'dh.S', 'dv.S.R', 'dk', 'tyof', 'f.Equation.*', 'f.Term.*'],
+    modifies=['len.*', 'el.*', 'dh.S.R', 'dv.S.R', 'dk', 'tyof', 'f.Equation.*', 'f.Term.*'],
     ensures=[('defined', 'has(self.EquationBlock.Equations, varname)'),
              ('new_equation_invariant', 'eq_inv(self.EquationBlock.Equations[varname])'),
              ('fresh_equation', 'fresh(self.EquationBlock.Equations[varname]) and fresh(self.EquationBlock.Equations[varname].TermList) and '
